@@ -402,7 +402,9 @@ func vhSSO(maxKids, kinds int, modes int) {
 	}
 }
 
-func VH_C01_sso()      { vhSSO(2, vhKidKinds, 2) }
+func VH_C01_sso()      { vhSSO(2, vhKidKinds, 1) } // quick: 0..2 children, raw presentation
+func VH_C01_sso_wire() { vhSSO(1, vhKidKinds, 2) } // quick: 0..1 child, raw and DEFLATE presentation
+func VH_C01_sso_full() { vhSSO(2, vhKidKinds, 2) } // thorough: 0..2 children, both presentations
 func VH_C01_sso_deep() { vhSSO(3, vhKidKinds, 1) }
 
 // VH_C02_store_rollover: a multi-step history on one long-lived SP. A genuine root-signed Response is
